@@ -316,6 +316,17 @@ async function op_like_cross(req) {
     return {packed: packed, error: error, n: rows.length};
 }
 
+async function op_roundtrip(c) {
+    // JS writer -> bytes -> JS bulk reader
+    let w = await op_write(c);
+    let out = {bytes_hex: w.bytes_hex, wwarnings: w.warnings, werror: w.error, records: null, rwarnings: [], rerror: null};
+    if (w.error === null) {
+        let r = await op_read({bytes_hex: w.bytes_hex, chunks: c.stream_chunks || null, encoding: c.encoding, delim: c.delim, policy: c.policy, has_header: false, comment_prefix: null});
+        out.records = r.records; out.rwarnings = r.warnings; out.rerror = r.error;
+    }
+    return out;
+}
+
 async function handle(req) {
     switch (req.op) {
         case 'hello': scratch_dir = req.scratch; return {ok: true, node: process.version, js_dir: JS_DIR, rbql_version: rbql.version};
@@ -329,6 +340,7 @@ async function handle(req) {
         case 'query_table': return await op_query_table(req);
         case 'query_batch': return await op_query_batch(req);
         case 'like_batch': return await op_like_batch(req);
+        case 'roundtrip_batch': { let rs = []; for (let c of req.cases) rs.push(await op_roundtrip(c)); return {results: rs}; }
         case 'like_cross': return await op_like_cross(req);
         default: return {error: {cls: 'DriverError', msg: 'unknown op ' + req.op}};
     }
